@@ -150,8 +150,8 @@ def gen_feed(rng, case, frac_reporting=None, threshold=100, special=True, n_unex
     if special:
         pool = idx[:]
         rng.shuffle(pool)
-        for kind in ["zero_baseline", "tf_low", "tf_high", "tf_eq_low", "tf_eq_high", "at_thr", "below_thr", "zero_baseline_partial", "zero_dem_baseline"]:
-            if pool and rng.random() < (0.3 if kind == "zero_dem_baseline" else 0.6):
+        for kind in ["zero_baseline", "tf_low", "tf_high", "tf_eq_low", "tf_eq_high", "at_thr", "below_thr", "zero_baseline_partial", "zero_dem_baseline", "tiny"]:
+            if pool and rng.random() < (0.3 if kind in ("zero_dem_baseline", "tiny") else 0.6):
                 i = pool.pop()
                 roles[i] = kind
                 specials.append(kind)
@@ -163,6 +163,16 @@ def gen_feed(rng, case, frac_reporting=None, threshold=100, special=True, n_unex
     for i, b in enumerate(base):
         role = roles[i]
         uid = b["geographic_unit_fips"]
+        if role == "tiny":
+            # a one-voter precinct / county of its own, nothing counted yet: its group's predicted turnout lies strictly between 0 and 1
+            c_new = f"8{len(feed) % 90 + 10}"
+            b["county_fips"] = c_new
+            b["baseline_dem"], b["baseline_gop"], b["baseline_turnout"] = 1, 0, 1
+            b["geographic_unit_fips"] = unit_id(case["unit_type"], b.get("district"), c_new, "t")
+            uid = b["geographic_unit_fips"]
+            feed.append({"postal_code": b["postal_code"], "geographic_unit_fips": uid, "results_dem": 0, "results_gop": 0, "results_turnout": 0, "percent_expected_vote": 0})
+            notes[uid] = role
+            continue
         if role == "nan_result":
             r = live_row(rng, b, rng.choice([0, 40, 100]), swing)
             for c in ("results_dem", "results_gop", "results_turnout"):
@@ -170,7 +180,9 @@ def gen_feed(rng, case, frac_reporting=None, threshold=100, special=True, n_unex
             feed.append(r)
             notes[uid] = role
         elif role == "rep":
-            feed.append(live_row(rng, b, 100 if threshold <= 100 else threshold, swing))
+            # at or above the threshold: with a threshold below 100 many "reporting" units are still counting
+            pev_rep = 100 if (threshold >= 100 or rng.random() < 0.5) else rng.randint(int(threshold), 100)
+            feed.append(live_row(rng, b, pev_rep, swing))
         elif role == "partial":
             hi = max(1, int(threshold) - 1)
             pev = rng.randint(1, hi) if hi >= 1 else 0
@@ -228,7 +240,8 @@ def gen_feed(rng, case, frac_reporting=None, threshold=100, special=True, n_unex
             feed.append(live_row(rng, b, threshold, swing))
             notes[uid] = role
         elif role == "below_thr":
-            feed.append(live_row(rng, b, max(0, threshold - 1), swing))
+            # one below the threshold, or a fraction of a percent below it (providers report fractional percentages)
+            feed.append(live_row(rng, b, max(0, threshold - rng.choice([1, 1, 0.4, 0.3])), swing))
             notes[uid] = role
     # unexpected units
     if n_unexpected is None:
